@@ -651,6 +651,9 @@ def placed_check(mres, cases, out):
             continue
         if m.get("placed") is True:
             n += 1
+        elif m.get("placed") == "macro-not-on-top" and cid in byid:
+            out.broken.append({"what": "a scanned forest has a MACRO below the top level (hypothesis of C01_expanded_forest_is_well_nested)",
+                               "detail": {k: bytes.fromhex(h).decode("latin1")[:600] for k, h in byid[cid]["files"].items()}})
         elif m.get("placed") is False and cid in byid:
             out.broken.append({"what": "an expanded forest that reaches the catalog builder is not nested as the context table prescribes (hypothesis of the totality theorem of Props/C01.v)",
                                "detail": {k: bytes.fromhex(h).decode("latin1")[:600] for k, h in byid[cid]["files"].items()}})
